@@ -67,6 +67,12 @@ def run(programs, rng: random.Random, *, lock_kind="symlink", crash=False, max_c
                     world.events.append({"e": "tick", "w": w.wid})
             world.grant(w)
         stuck = steps >= max_steps
+        if stuck:
+            # "the surviving workers keep reading and appending": a live worker that is still inside a call after thousands of
+            # scheduling steps (the clock passes the grace period at every second sleep on a dead owner's lock) never will
+            for w in world.workers.values():
+                if not w.finished and not w.dead:
+                    world.events.append({"e": "never_finished", "w": w.wid})
         world.shutdown()
         evs = [e for e in world.events]
         return {"tid": tid, "workers": sorted(world.workers), "ev": evs, "lock": lock_kind, "stuck": int(stuck),
